@@ -26,12 +26,13 @@ THEOREMS = ["C04_dur_wellformed", "C04_dur_reader", "C04_refuted_zero_malformed"
             "C04_history_ops", "C04_dur_roundtrip",
             "C04_text_int", "C04_text_float", "C04_text_decimal", "C04_text_fraction", "C04_text_uuid",
             "C04_text_path", "C04_text_enum", "C04_text_date", "C04_text_datetime", "C04_text_time",
+            "C04_text_bool", "C04_subclass_instances",
             "C04_num_to_temporal", "C04_temporal_to_num", "C04_temporal_to_text",
             "C04_date_reader", "C04_time_reader", "C04_datetime_reader",
             "C04_date_law_from_reader", "C04_datetime_law_from_reader", "C04_time_law_from_reader"]
 # non-vacuity: a concrete runtime satisfies RuntimeLaws, and text theorems instantiated on it (Examples of Props/C04.v)
 EXAMPLES = ["C04_runtime_laws_satisfiable", "C04_text_int_on_toy", "C04_dur_roundtrip_on_toy", "C04_text_date_on_toy",
-            "C04_text_enum_on_toy", "C04_history_example"]
+            "C04_text_enum_on_toy", "C04_history_example", "C04_subclass_on_toy"]
 UTC = D.timezone.utc
 EPOCH = D.datetime(1970, 1, 1, tzinfo=UTC)
 TD = D.timedelta
@@ -179,12 +180,14 @@ def emit_tmf(x: D.time) -> str:
 
 
 def tok(x) -> str:
+    if isinstance(x, enum.Enum):
+        return type(x).__name__ + "." + x.name
     if isinstance(x, float):
         return x.hex()
     if isinstance(x, pathlib.PurePath):
         return type(x).__name__ + ":" + str(x)
-    if isinstance(x, enum.Enum):
-        return type(x).__name__ + "." + x.name
+    if isinstance(x, re.Pattern):
+        return repr(x)
     return str(x)
 
 
@@ -194,7 +197,7 @@ def emit_val(x) -> str:
     if isinstance(x, enum.Enum):
         return f"(VEnum {cs(tok(x))})"
     if isinstance(x, bool):
-        return f"(VOther {cs(repr(x))})"
+        return f"(VBool {lib.coq_bool(x)})"
     if isinstance(x, int):
         return f"(VInt {coq_Z(x)})"
     if isinstance(x, float):
@@ -224,6 +227,8 @@ def emit_val(x) -> str:
     if isinstance(x, TD):
         d, s, u = fields(x)
         return f"(VTimeDelta {coq_Z(d)} {s} {u})"
+    if isinstance(x, re.Pattern):
+        return f"(VPattern {cs(tok(x))})"
     return f"(VOther {cs(repr(x)[:60])})"
 
 
@@ -508,29 +513,122 @@ def text_of(x):
         return b, None
 
 
-def answers_for(routine: str, T, x) -> str:
-    """the interpreter's answers to every primitive the model may ask on this case (never through typelib)"""
-    import pendulum
-    is_text = isinstance(x, (str, bytes, bytearray, memoryview))
-    f = {k: "[]" for k in ("a_utf8", "a_int", "a_tok", "a_parse", "a_timeiso", "a_isdigit")}
+def base_of(m):
+    """the member of a mixin enum as the plain str / int / float / bytes it also is (None: a plain Enum member)"""
+    if isinstance(m, str):
+        return str.__str__(m)
+    if isinstance(m, int):
+        return int.__int__(m)
+    if isinstance(m, float):
+        return float.__float__(m)
+    if isinstance(m, bytes):
+        return bytes(m)
+    return None
+
+
+def answers(**kw) -> str:
+    """a Coq `answers` record (Model/ScalarsEq.v): every primitive unanswered unless given"""
     un = lambda ty: f"(@Unmodelled {ty})"
-    f.update(a_canon='""%string', a_uuid_int=un("tok"), a_enum_text=un("tok"), a_enum_loaded=un("tok"), a_load=un("val"),
+    f = {k: "[]" for k in ("a_utf8", "a_int", "a_tok", "a_parse", "a_timeiso", "a_isdigit")}
+    f.update(a_canon='""%string', a_uuid_int=un("tok"), a_enum="(@nil (val * res tok))", a_load=un("val"),
              a_int_of_float=un("Z"), a_float_of_int=un("tok"), a_fromts=un("dtf"), a_timestamp=un("tok"),
-             a_total_seconds='""%string', a_tdsec=un("(Z * Z * Z)"))
+             a_total_seconds='""%string', a_tdsec=un("(Z * Z * Z)"), a_member="(@nil (string * bool))",
+             a_base="(@nil (string * val))",
+             a_pyeq="(@nil (val * (val * bool)))", a_truthy="(@nil (val * res bool))",
+             a_compile="(@nil (string * res tok))", a_ptext="(@nil (string * val))")
+    f.update(kw)
+    return "{| " + "; ".join(f"{k} := {v}" for k, v in f.items()) + " |}"
+
+
+def in_val(x) -> bool:
+    """x has a faithful `val` term (Temporal.val: aware temporals with whole-minute offsets; no containers)"""
+    if x is None or isinstance(x, (enum.Enum, bool, re.Pattern)):
+        return True
+    if isinstance(x, (D.datetime, D.time)):
+        o = x.utcoffset()
+        return o is not None and not o.microseconds and o.seconds % 60 == 0
+    return type(x) in (int, float, str, bytes, bytearray, memoryview, decimal.Decimal, fractions.Fraction, uuid.UUID,
+                       D.date, TD) or isinstance(x, pathlib.PurePath)
+
+
+def tables(objs, enum_T=None, members=(), cands=(), truth=(), compile_texts=()):
+    """the keyed answer tables: mixin views and pattern texts of the objects in sight, E(v) for the lookup candidates,
+    x == m for candidate / member pairs, bool(x), re.compile(s)"""
+    tokv = lambda v: cs(tok(v))
+    kw = {}
+    base, ptext, seen = [], [], set()
+    for o in objs:
+        if isinstance(o, enum.Enum) and tok(o) not in seen and base_of(o) is not None:
+            seen.add(tok(o))
+            base.append(f"({cs(tok(o))}, {emit_val(base_of(o))})")
+        if isinstance(o, re.Pattern) and tok(o) not in seen:
+            seen.add(tok(o))
+            ptext.append(f"({cs(tok(o))}, {emit_val(o.pattern)})")
+    if enum_T is not None:
+        mem = {tok(o): isinstance(o, enum_T) for o in objs if isinstance(o, enum.Enum)}
+        if mem:
+            kw["a_member"] = coq_list([f"({cs(k)}, {lib.coq_bool(v)})" for k, v in mem.items()])
+    if base:
+        kw["a_base"] = coq_list(base)
+    if ptext:
+        kw["a_ptext"] = coq_list(ptext)
+    if enum_T is not None:
+        rows, seen = [], set()
+        for c in cands:
+            if in_val(c) and emit_val(c) not in seen:
+                seen.add(emit_val(c))
+                rows.append(f"({emit_val(c)}, {emit_res(lambda c=c: enum_T(c), tokv, 'tok')})")
+        if rows:
+            kw["a_enum"] = coq_list(rows)
+    if members:
+        rows, seen = [], set()
+        for c in cands:
+            for m in members:
+                if in_val(c) and in_val(m) and (emit_val(c), emit_val(m)) not in seen:
+                    seen.add((emit_val(c), emit_val(m)))
+                    try:
+                        r = c is m or bool(c == m)
+                    except Exception:
+                        r = False
+                    rows.append(f"({emit_val(c)}, ({emit_val(m)}, {lib.coq_bool(r)}))")
+        if rows:
+            kw["a_pyeq"] = coq_list(rows)
+    rows, seen = [], set()
+    for c in truth:
+        if in_val(c) and emit_val(c) not in seen:
+            seen.add(emit_val(c))
+            rows.append(f"({emit_val(c)}, {emit_res(lambda c=c: bool(c), lib.coq_bool, 'bool')})")
+    if rows:
+        kw["a_truthy"] = coq_list(rows)
+    rows = [f"({cs(t)}, {emit_res(lambda t=t: re.compile(t), tokv, 'tok')})" for t in dict.fromkeys(compile_texts)]
+    if rows:
+        kw["a_compile"] = coq_list(rows)
+    return kw
+
+
+def answers_for(routine: str, T, x, members=(), also=()) -> str:
+    """the interpreter's answers to every primitive the model may ask on this case (never through typelib);
+    members: the values of the Literal for routine RLit; also: further objects in sight (their mixin views ...)"""
+    import pendulum
+    is_enum = isinstance(x, enum.Enum)
+    is_text = isinstance(x, (str, bytes, bytearray, memoryview)) and not is_enum
+    f = {}
     s = None
     if is_text:
         b, s = text_of(x)
         if not isinstance(x, str):
             f["a_utf8"] = coq_list([f"({cs(b)}, {'(Ok ' + cs(s) + ')' if s is not None else '(@Raise string EValue)'})"])
+    elif is_enum and isinstance(x, str):
+        s = base_of(x)                      # a member of a str-mixin enum is converted as the str it is
     tokv = lambda v: cs(tok(v))
-    num = x if isinstance(x, (int, float)) and not isinstance(x, bool) else None
+    num = x if isinstance(x, (int, float)) else None          # True and IntEnum members are numbers
     if s is not None:
         f["a_int"] = coq_list([f"({cs(s)}, {emit_res(lambda: int(s), coq_Z, 'Z')})"])
         toks = [("float:", float), ("dec:", decimal.Decimal), ("frac:", fractions.Fraction), ("uuid:", uuid.UUID)]
         if routine == "RPath":
             toks.append(("path:", T))
         f["a_tok"] = coq_list([f"({cs(p + s)}, {emit_res(lambda c=c: c(s), tokv, 'tok')})" for p, c in toks])
-        if routine in ("RDate", "RDateTime", "RTime", "RTimeDelta"):
+        if routine in ("RDate", "RDateTime", "RTime", "RTimeDelta") and is_text:
             keys = [s] + ([s[1:]] if s.startswith("-P") else [])
             f["a_parse"] = coq_list([f"({cs(k)}, {emit_res(lambda k=k: pendulum.parse(k), emit_parsed, 'parsed')})" for k in keys])
             f["a_timeiso"] = coq_list([f"({cs(s)}, {emit_res(lambda: D.time.fromisoformat(s), emit_tmf, 'tmf')})"])
@@ -541,6 +639,10 @@ def answers_for(routine: str, T, x) -> str:
                     num = float(s)
                 except ValueError:
                     pass
+    if isinstance(x, int) and routine in ("RDec", "RFrac"):          # Decimal(z) / Fraction(z) of an int (True, IntEnum)
+        zs = str(int(x))
+        f["a_tok"] = coq_list([f"({cs(p + zs)}, {emit_res(lambda c=c: c(x), tokv, 'tok')})"
+                               for p, c in (("dec:", decimal.Decimal), ("frac:", fractions.Fraction))])
     if num is not None:
         f["a_fromts"] = emit_res(lambda: D.datetime.fromtimestamp(num, tz=UTC), emit_dtf, "dtf")
         f["a_tdsec"] = emit_res(lambda: TD(seconds=num), lambda t: "(%s, %d, %d)" % ((coq_Z(fields(t)[0]),) + fields(t)[1:]), "(Z * Z * Z)")
@@ -558,26 +660,41 @@ def answers_for(routine: str, T, x) -> str:
         ux = D.datetime(x.year, x.month, x.day, tzinfo=UTC).timestamp()
     if ux is not None:
         f["a_int_of_float"] = emit_res(lambda: int(ux), coq_Z, "Z")
+    elif isinstance(x, float):
+        f["a_int_of_float"] = emit_res(lambda: int(x), coq_Z, "Z")
     if isinstance(x, (D.date, D.time)):
         f["a_canon"] = cs(x.isoformat())
     elif not is_text:
         f["a_canon"] = cs(str(x))
-    if routine in ("RUuid", "REnum"):
+    loaded, objs, cands = None, [x], []
+    if routine in ("RUuid", "REnum", "RLit"):
         f["a_load"] = emit_res(lambda: py_load(x), emit_val, "val")
         try:
             loaded = py_load(x)
+            objs.append(loaded)
         except Exception:
             loaded = None
-        if routine == "RUuid" and isinstance(loaded, int) and not isinstance(loaded, bool):
+        if routine == "RUuid" and isinstance(loaded, int):
             f["a_uuid_int"] = emit_res(lambda: uuid.UUID(int=loaded), tokv, "tok")
-        if routine == "REnum":
-            if s is not None:
-                f["a_enum_text"] = emit_res(lambda: T(s), tokv, "tok")
-            f["a_enum_loaded"] = emit_res(lambda: T(loaded), tokv, "tok")
-            if not is_text:
-                f["a_enum_loaded"] = emit_res(lambda: T(x), tokv, "tok")     # decode(x) is x itself
-                f["a_load"] = f"(Ok {emit_val(x)})"
-    return "{| " + "; ".join(f"{k} := {v}" for k, v in f.items()) + " |}"
+        if routine == "RUuid" and isinstance(loaded, enum.Enum) and isinstance(loaded, str):
+            sl = base_of(loaded)
+            f["a_tok"] = coq_list([f"({cs('uuid:' + sl)}, {emit_res(lambda: uuid.UUID(sl), tokv, 'tok')})"])
+    if routine in ("REnum", "RLit"):
+        cands = [x if not is_text else s, loaded] if (not is_text or s is not None) else [loaded]
+        cands = [x] + cands
+    truth = []
+    if routine == "RBool":
+        truth = [x] + ([ux] if ux is not None else [])
+    if routine == "RPattern" and s is not None:
+        arg = x if is_enum else s               # re.compile is handed the decoded object itself (a str-mixin member)
+        f["a_compile"] = coq_list([f"({cs(s)}, {emit_res(lambda: re.compile(arg), tokv, 'tok')})"])
+        try:
+            objs.append(re.compile(arg))
+        except Exception:
+            pass
+    f.update(tables(objs + list(members) + list(also), enum_T=T if routine == "REnum" else None, members=members, cands=cands,
+                    truth=truth))
+    return answers(**f)
 
 
 def routine_inputs(rng: random.Random, n: int):
@@ -650,12 +767,90 @@ def routine_inputs(rng: random.Random, n: int):
     return [(r, (ROUTINE_T[r] if T is None else T), x, c) for r, T, x, c in out][:n]
 
 
+import typing
+
+LITERALS = [typing.Literal[1, "a"], typing.Literal[1, "a", None, True, b"x"], typing.Literal["1", "null", "true", "[1]"],
+            typing.Literal[0, False, "auto"], typing.Literal[EInt.one, "one", 2], typing.Literal[ESMix.a, "5", 7]]
+
+
+def gen_pattern(rng):
+    return rng.choice([re.compile("a+"), re.compile(""), re.compile("a", re.I), re.compile(b"a+"), re.compile("\u00e9t\u00e9|x"),
+                       re.compile(r"^\d{2}-\w+$"), re.compile("x", re.M | re.S), re.compile("[1]"), re.compile("null")])
+
+
+def routine_inputs2(rng: random.Random, n: int):
+    """round 4 (leaf bridge): bool and int-subclass inputs, members of mixin enums given to every routine, and the
+    routines bool / Literal / Pattern / NoneType"""
+    out = []
+    mixins = [ESMix.a, ESMix.five, EIntEnum.x, EIntEnum.y]
+    scal = lambda: rng.choice([gen_int(rng), gen_float(rng), gen_dec(rng), gen_frac(rng), gen_uuid(rng), gen_path(rng), None,
+                               gen_date(rng), gen_td(rng), rng.choice(list(EInt)), gen_pattern(rng)])
+    texts = ["", "0", "1", "true", "false", "True", "null", "None", "a", '"a"', "[1]", "1.0", "b'x'", "x", "auto", "one", "5", "7",
+             "a+", "(", "\u00e9t\u00e9"]
+    # fixed: every subclass instance under every routine; every str member of a Literal in every hashable carrier
+    # (the decoded-text step: b"1" is the member "1", although it loads to the int 1), members by == across classes
+    for r in ("RInt", "RFloat", "RDec", "RFrac", "RUuid", "RPath", "RDate", "RDateTime", "RTime", "RTimeDelta", "RStr", "RBytes",
+              "REnum", "RBool", "RPattern", "RNone"):
+        T = {"RPath": pathlib.PurePosixPath, "REnum": EIntEnum, "RBool": bool, "RPattern": re.Pattern, "RNone": type(None)}.get(r) or ROUTINE_T[r]
+        for x in [True, False] + mixins:
+            if isinstance(x, str) and r in ("RDate", "RDateTime", "RTime", "RTimeDelta"):
+                continue
+            out.append((r, T, x, "fixed:bool|mixin-member"))
+    for L in LITERALS:
+        ms = typing.get_args(L)
+        for m in ms:
+            if isinstance(m, str) and not isinstance(m, enum.Enum):
+                out += [(("RLit", ms), L, carry(c, m), "fixed:literal-text") for c in HASHABLE]
+                out.append((("RLit", ms), L, json.dumps(m), "fixed:literal-text"))
+        out += [(("RLit", ms), L, x, "fixed:literal-eq") for x in (True, False, 1, 0, 1.0, 7, "true", "null", b"x", None, ESMix.a, EInt.one)]
+    out += [("RUuid", uuid.UUID, carry(c, t), "fixed:text-loading-to-bool|int") for c in HASHABLE for t in ("true", "false", "1", "True")]
+    out += [("RBool", bool, x, "fixed:bool") for x in ("false", "", b"", "0", 0, 0.0, float("nan"), None, decimal.Decimal(0), TD(0), TD(1))]
+    while len(out) < n:
+        k = len(out) % 8
+        if k == 0:      # True / False / mixin members under every existing routine
+            r = rng.choice(["RInt", "RFloat", "RDec", "RFrac", "RUuid", "RPath", "RDate", "RDateTime", "RTime", "RTimeDelta",
+                            "RStr", "RBytes", "REnum"])
+            T = ROUTINE_T.get(r) or (pathlib.PurePosixPath if r == "RPath" else rng.choice(ENUMS))
+            pool = [True, False] + mixins
+            if r in ("RDate", "RDateTime", "RTime", "RTimeDelta"):      # dateparse of a str-mixin member: outside the model
+                pool = [m for m in pool if not isinstance(m, str)]
+            out.append((r, T, rng.choice(pool), "bool|mixin-member"))
+        elif k == 1:    # text that loads to a bool / an int under UUID and Enum
+            r, T = rng.choice([("RUuid", uuid.UUID), ("REnum", rng.choice(ENUMS))])
+            out.append((r, T, carry(rng.choice(HASHABLE), rng.choice(["true", "false", "True", "1", "7", "null"])), "text-loading-to-bool|int"))
+        elif k in (2, 3):
+            x = rng.choice([True, False, rng.choice(mixins), scal(), carry(rng.choice(CARRIERS), rng.choice(texts)), gen_datetime(rng),
+                            0, 0.0, -0.0, float("nan"), decimal.Decimal("0"), fractions.Fraction(0), TD(0), ""])
+            out.append(("RBool", bool, x, "bool"))
+        elif k in (4, 5):
+            L = rng.choice(LITERALS)
+            ms = typing.get_args(L)
+            x = rng.choice([rng.choice(ms), rng.choice(ms), carry(rng.choice(HASHABLE), rng.choice(texts)), True, False, 1, 1.0, 0, 7, 2,
+                            decimal.Decimal(1), fractions.Fraction(1), rng.choice(mixins), EInt.one, None, b"x", b"a",
+                            carry(rng.choice(HASHABLE), json.dumps(rng.choice([m for m in ms if isinstance(m, (str, int, bool, type(None))) and not isinstance(m, enum.Enum)]))),
+                            scal()])
+            out.append((("RLit", ms), L, x, "literal"))
+        elif k == 6:
+            x = rng.choice([gen_pattern(rng), carry(rng.choice(CARRIERS), rng.choice(["a+", "(", "", "[1]", "null", "\u00e9t\u00e9", "a|b"])),
+                            5, None, ESMix.a, True, b"\xff"])
+            out.append(("RPattern", re.Pattern, x, "pattern"))
+        else:
+            x = rng.choice([None, None, carry(rng.choice(CARRIERS), rng.choice(["null", "None", "", "0"])), 0, False, b"\xff", scal(),
+                            rng.choice(mixins)])
+            out.append(("RNone", type(None), x, "none"))
+    return out[:n]
+
+
 def corr_routines(run):
     from typelib import unmarshal
     n = run.budget(1500, 12000)
     rng = random.Random(run.seed + 14)
     cases, coq, dist = [], [], {}
-    for routine, T, x, cls in routine_inputs(rng, n):
+    stream = routine_inputs(rng, n - n // 3) + routine_inputs2(random.Random(run.seed + 18), n // 3)
+    for routine, T, x, cls in stream:
+        members = ()
+        if isinstance(routine, tuple):
+            routine, members = routine
         impl.clear_caches()
         try:
             obs = unmarshal(T, x)
@@ -664,14 +859,17 @@ def corr_routines(run):
                 continue
         except Exception as e:
             obs, o = e, f"(@Raise val {exn(e)})"
+        if not isinstance(obs, Exception) and not in_val(obs):
+            continue
         try:
-            ans = answers_for(routine, T, x)
+            ans = answers_for(routine, T, x, members)
         except Exception as e:       # an input the harness cannot describe
             run.notes.append(f"routines: skipped undescribable case {routine} {x!r}: {e!r}")
             continue
         cases.append({"layer": "routines", "routine": routine, "type": getattr(T, "__name__", str(T)),
                       "input": repr(x)[:120], "class": cls, "observed": repr(obs)[:160]})
-        coq.append(f"({routine}, {ans}, {emit_val(x)}, {o})")
+        rterm = routine if not members else "(RLit " + coq_list([emit_val(m) for m in members], "val") + ")"
+        coq.append(f"({rterm}, {ans}, {emit_val(x)}, {o})")
         key = f"{routine}:{cls.split('/')[0]}"
         dist[key] = dist.get(key, 0) + 1
     bad, extra = eval_shards(run, "routines", "routine_case_ok", coq, [("unmodelled", "(fun c => negb (routine_unmodelled c))")])
@@ -923,7 +1121,8 @@ def sample_laws(run):
     rng = random.Random(run.seed + 15)
     n = run.budget(300, 3000)
     laws = {k: 0 for k in ["utf8_rt", "int_text_rt", "float_text_rt", "dec_text_rt", "frac_text_rt", "uuid_text_rt", "path_text_rt",
-                           "uuid_text_not_loadable", "parse_date_rt", "parse_dt_rt", "time_iso_rt", "canon_unsigned", "parse_dur_rt"]}
+                           "uuid_text_not_loadable", "parse_date_rt", "parse_dt_rt", "time_iso_rt", "canon_unsigned", "parse_dur_rt",
+                           "enum_result_member"]}
     bad = []
 
     def law(name, ok, what):
@@ -951,6 +1150,13 @@ def sample_laws(run):
         td = gen_td(rng)
         if td >= TD(0):
             r = pendulum.parse(iso_py(td)); law("parse_dur_rt", fields(r) == fields(td), td)
+        E = rng.choice(ENUMS); m = rng.choice(list(E))
+        for v in (m.value, m, str(m.value)):
+            try:
+                r = E(v)
+            except Exception:
+                continue
+            law("enum_result_member", isinstance(r, E), (E.__name__, v))
     run.laws.update(laws)
     run.oblige("laws:RuntimeLaws sampled against the interpreter", not bad, "; ".join(bad[:3]))
 
